@@ -375,8 +375,8 @@ func (r *Run) replay(res *ObResult) (string, bool) {
 }
 
 func (r *Run) writeEvidence(units []*Unit, results []*ObResult, discharged, violations int, solverMs int64, bySolver map[string]int, coverSat, coverN, vacuous int, undecided []string) {
-	if r.Prop == "all" {
-		return
+	if r.Prop == "all" || os.Getenv("JVC_NO_EVIDENCE") != "" || repoDir != "/repo" {
+		return // evidence is only written by checks of /repo itself (not by seeded-change or scratch-copy runs)
 	}
 	trusted := map[string]bool{}
 	var fnames []string
